@@ -970,7 +970,11 @@ Section Decode.
   Definition derived_names (s : str) : list str :=
     let b := snd (parse_pattern s) in
     let ub := map upper_c b in
-    [s; b; [97; 46] ++ b; [66; 46; 97; 46] ++ b; ub; 46 :: b; b ++ [46]; [120; 45; 49; 46] ++ ub].
+    let uf := match split_dot b with
+              | Some (l, r) => map upper_c l ++ dot :: r
+              | None => ub
+              end in
+    [s; b; [97; 46] ++ b; [66; 46; 97; 46] ++ b; ub; 46 :: b; b ++ [46]; [120; 45; 49; 46] ++ ub; uf].
 
   (** the lookups an encoded lookup operation stands for *)
   Definition decode_lookups (l : list N) : option (list op) :=
